@@ -38,7 +38,15 @@ def build_table(g):
             lines += pair_frames(g, icao, lat, lon)
         if r.random() < 0.5:
             lines.append(g.f_df17(icao, me_ident(r.randint(1, 4), r.randint(0, 7), [r.randint(1, 26) for _ in range(8)])))
+        # every supported format can be the only / the latest one heard from an aircraft (DF0 and DF18 leave the
+        # last-format marker at 0, DF16/20/21 are long replies)
+        if r.random() < 0.35:
+            lines.append(g.odd_frame(r.choice([0, 0, 18, 18, 16, 20, 21]), icao))
+    for _ in range(r.randint(0, 2)):
+        lines.append(g.odd_frame(r.choice([0, 18]), r.getrandbits(24) | 1))      # aircraft known from DF0 / DF18 only
     r.shuffle(lines)
+    for _ in range(r.randint(0, 2)):
+        lines.append(g.odd_frame(r.choice([0, 18, 0, 4]), r.choice(pool)))        # ... or heard last on DF0 / DF18
     return lines
 
 
